@@ -54,6 +54,17 @@ def run(chk, facts, tier):
             adv = [val for tgt, op, val, st in stores(fn.body) if is_name(tgt, 'index_') and op == '+=']
             ok = len(adv) == 1 and lin(fn, adv[0]) == Lin(0, {'number_of_attributes': 1})
             why = 'the walk does not advance by Service::number_of_attributes per service'
+            if ok:
+                from .lib.paths import explore
+
+                def on_node(ts, node):
+                    for tgt, op, val, st in stores(node):
+                        if st is node and is_name(tgt, 'index_') and op == '+=':
+                            return ts + 1
+                    return ts
+                res = explore(fn, 0, on_node)
+                if not res or any(ts != 1 for ts, tr in res):
+                    ok, why = False, 'a path through each() leaves without advancing index_ by the service\'s attributes (e.g. an early return for a service that is not reported): every later service is looked up at the wrong attribute index and is not found'
             hb = [c for c in fn.body.calls('handle_by_index') if must_hold(c) or True]
             ends = []
             for c in fn.body.calls('handle_by_index'):
